@@ -423,6 +423,41 @@ fn gen_len(rng: &mut Prng) -> usize {
     }
 }
 
+/// Key / salt bytes: mostly random, but also the structured shapes a shortcut could be keyed on
+/// (all zero, zeros with one non-zero byte anywhere - including beyond the 72 bytes one pass of the
+/// P-array consumes -, a zero prefix of some length, a short period repeated, one special value).
+fn gen_bytes(rng: &mut Prng, len: usize) -> Vec<u8> {
+    match rng.below(20) {
+        0 => vec![0u8; len],
+        1 | 2 => {
+            let mut v = vec![0u8; len];
+            let i = rng.below(len as u64) as usize;
+            v[i] = 1 + rng.below(255) as u8;
+            v
+        }
+        3 | 4 => {
+            // zero prefix (often exactly 72, 64, 16 or 4 bytes), random tail
+            let mut v = rng.bytes(len);
+            let k = (*rng.pick(&[72usize, 72, 64, 18, 16, 8, 4, 1])).min(len.saturating_sub(1));
+            for b in v.iter_mut().take(k) {
+                *b = 0;
+            }
+            if len > k {
+                v[len - 1] |= 1;
+            }
+            v
+        }
+        5 => {
+            // a short period repeated
+            let p = rng.range(1, 5) as usize;
+            let base = rng.bytes(p);
+            (0..len).map(|i| base[i % p]).collect()
+        }
+        6 => vec![*rng.pick(&[0xffu8, 0x80, 0x01, 0x7f]); len],
+        _ => rng.bytes(len),
+    }
+}
+
 fn gen_ops(rng: &mut Prng, max_cost: u8) -> Vec<BOp> {
     let n = rng.range(4, 40) as usize;
     let mut ops = vec![BOp::Init { i: 0 }];
@@ -438,16 +473,16 @@ fn gen_ops(rng: &mut Prng, max_cost: u8) -> Vec<BOp> {
         let i = rng.below(NSTATES as u64) as u8;
         let op = match rng.weighted(&w2) {
             0 => BOp::Init { i },
-            1 => BOp::Expand { i, key: { let l = gen_len(rng); rng.bytes(l) } },
-            2 => BOp::Salted { i, salt: { let l = if rng.chance(1, 2) { 16 } else { gen_len(rng) }; rng.bytes(l) }, key: { let l = gen_len(rng); rng.bytes(l) } },
+            1 => BOp::Expand { i, key: { let l = gen_len(rng); gen_bytes(rng, l) } },
+            2 => BOp::Salted { i, salt: { let l = if rng.chance(1, 2) { 16 } else { gen_len(rng) }; gen_bytes(rng, l) }, key: { let l = gen_len(rng); gen_bytes(rng, l) } },
             3 => BOp::Encrypt { i, lr: [rng.next() as u32, rng.next() as u32] },
             4 => BOp::TraitBlock { i, dec: rng.chance(1, 2), block: rng.next().to_le_bytes() },
             5 => BOp::Clone { i, j: rng.below(NSTATES as u64) as u8 },
             6 => BOp::Relocate { i },
             7 => BOp::Drop { i },
-            8 => BOp::CostLoop { i, cost: rng.below(max_cost as u64 + 1) as u8, salt: { let l = if rng.chance(2, 3) { 16 } else { gen_len(rng) }; rng.bytes(l) }, key: { let l = gen_len(rng); rng.bytes(l) } },
+            8 => BOp::CostLoop { i, cost: rng.below(max_cost as u64 + 1) as u8, salt: { let l = if rng.chance(2, 3) { 16 } else { gen_len(rng) }; gen_bytes(rng, l) }, key: { let l = gen_len(rng); gen_bytes(rng, l) } },
             9 => BOp::KeyingEquiv { key: { let l = rng.range(4, 56) as usize; rng.bytes(l) } },
-            _ => BOp::ZeroSaltEquiv { i, zeros: rng.range(1, 40) as u16, key: { let l = gen_len(rng); rng.bytes(l) } },
+            _ => BOp::ZeroSaltEquiv { i, zeros: *rng.pick(&[1u16, 3, 4, 16, 17, 40, 72, 73, 100, 300]), key: { let l = gen_len(rng); gen_bytes(rng, l) } },
         };
         ops.push(op);
     }
